@@ -101,3 +101,9 @@ func VerifAddCandidate(ctx context.Context, a *Agent, cand Candidate, conn net.P
 func VerifSetConnectionStateFailed(a *Agent) error {
 	return a.loop.Run(a.loop, func(context.Context) { a.updateConnectionState(ConnectionStateFailed) })
 }
+
+// VerifResolveSrflxAddresses is resolveSrflxAddresses: the addresses the address-rewrite
+// mapper yields for a server reflexive candidate whose socket is bound to localIP.
+func VerifResolveSrflxAddresses(a *Agent, localIP net.IP, iface string) ([]net.IP, bool) {
+	return a.resolveSrflxAddresses(localIP, iface)
+}
